@@ -188,6 +188,29 @@ def do_chunk(chunk):
     return acc
 
 
+def do_bcrypt_pure(args):
+    seed, = args
+    acc = common.Acc()
+    rng = rt.rng_for(seed, PID, "bcrypt-pure")
+    w = rt.vw("opt")
+    tag = rng.choice([b"$2b$", b"$2y$"])
+    raw = bytes(rng.getrandbits(8) for _ in range(16))
+    p = gen.gen_phrase(rng, rng.choice([0, 1, 8, 55, 56, 71, 72, 73, 100]), "bin")
+    s22, d31 = ref.bcrypt_pure(p, 4, raw)
+    want = tag + b"04$" + s22 + d31
+    res, end = w.run([rt.obj_line(0), rt.crypt_line("crypt_rn", 0, p, tag + b"04$" + s22)], 120)
+    if end is None:
+        acc.count("evaluations")
+        acc.count("compared_with_pure_bcrypt")
+        acc.cls(("bcrypt-pure", tag, len(p) > 72))
+        h = rt.hash_of(res[1])
+        if h != want:
+            acc.violation("%s/differs-from-model/%s" % (PID, "bcrypt" if tag == b"$2b$" else "bcrypt_y"),
+                          "phrase(%d)=%s: tree %r, pure-Python Eksblowfish %r" % (len(p), p.hex()[:60], h, want),
+                          rt.replay_obj("opt", [rt.obj_line(0), rt.crypt_line("crypt_rn", 0, p, tag + b"04$" + s22)]))
+    return acc
+
+
 def run(tier):
     run_ = common.Run(PID, tier, "exploration")
     bad = ref.selftest()
@@ -197,7 +220,10 @@ def run(tier):
     cases = make_cases(run_.seed, tier)
     for acc in pool.pmap(do_chunk, pool.chunks(cases, 12)):
         run_.merge(acc)
-    # one pure-Python Eksblowfish second opinion (independent of the crypt_blowfish lineage)
+    # pure-Python Eksblowfish (tables computed from the digits of pi): a second opinion that does not
+    # share the crypt_blowfish lineage of both the tree and nettle
+    for acc in pool.pmap(do_bcrypt_pure, [(run_.seed * 10 + i,) for i in range(4 if tier == "quick" else 16)]):
+        run_.merge(acc)
     a = run_.acc
     nomodel = {"yescrypt"}       # only the '.' flavour has an independent model
     cov = {
@@ -211,6 +237,7 @@ def run(tier):
         "per_method_release": {m: int(a.n.get("rel/" + m, 0)) for m in gen.METHODS},
         "per_method_model": {m: int(a.n.get("mod/" + m, 0)) for m in gen.METHODS},
         "model_disagrees_with_tree_and_release": int(a.n.get("model_disagrees_with_both", 0)),
+        "compared_with_pure_python_eksblowfish": int(a.n.get("compared_with_pure_bcrypt", 0)),
         "flavours": ["opt (-O2)", "asan", "sys (libxcrypt 4.4.33 /lib/x86_64-linux-gnu/libcrypt.so.1)"],
     }
     req = {"release/" + m: a.n.get("rel/" + m, 0) for m in gen.METHODS}
